@@ -14,6 +14,7 @@ type cell struct {
 	ret    T
 	expr   string // DDP expression over the parameters a, b, c
 	pre    string // statements in front of the returning statement (may be empty)
+	top    string // declarations in front of the function (may be empty)
 	ref    refFn
 	group  string
 }
@@ -309,6 +310,43 @@ func scalarCells() []cell {
 			}
 		}
 	}
+	// --- Kombinationen: two values are equal exactly when all their fields are equal, each field
+	// by the equality of its type (a Kommazahl field by numeric equality: -0,0 equals 0,0 and an
+	// undefined value equals nothing)
+	type kfield struct {
+		decl, lit string
+		t         T
+	}
+	fk := kfield{"der Kommazahl", "0,0", K}
+	fz := kfield{"der Zahl", "0", Z}
+	fw := kfield{"dem Wahrheitswert", "falsch", W}
+	for _, fs := range [][2]kfield{{fk, fk}, {fz, fk}, {fk, fz}, {fw, fk}, {fz, fz}} {
+		fs := fs
+		top := "Wir nennen die Kombination aus\n\t" + fs[0].decl + " x mit Standardwert " + fs[0].lit + ",\n\t" + fs[1].decl + " y mit Standardwert " + fs[1].lit +
+			",\nein Paar, und erstellen sie so:\n\t\"ein Paar mit x gleich <x> und y gleich <y>\"\n\n"
+		for _, neg := range []bool{false, true} {
+			neg := neg
+			key, op := "kombeq", "gleich"
+			if neg {
+				key, op = "kombne", "ungleich"
+			}
+			cells = append(cells, cell{name: fmt.Sprintf("%s_%s%s", key, tKey[fs[0].t], tKey[fs[1].t]), ptypes: []T{fs[0].t, fs[1].t, fs[0].t}, ret: W, group: "kombination", top: top,
+				pre: "Das Paar u ist ein Paar mit x gleich a und y gleich b.\n\tDas Paar v ist ein Paar mit x gleich c und y gleich b.\n\t", expr: "u " + op + " v ist",
+				ref: func(c *smt.Ctx, a []*smt.Expr) *smt.Expr {
+					feq := func(t T, x, y *smt.Expr) *smt.Expr {
+						if t == K {
+							return c.FEq(x, y)
+						}
+						return c.Eq(x, y)
+					}
+					eq := c.And(feq(fs[0].t, a[0], a[2]), feq(fs[1].t, a[1], a[1]))
+					if neg {
+						eq = c.Not(eq)
+					}
+					return c.BoolToBV(eq, 1)
+				}})
+		}
+	}
 	return cells
 }
 
@@ -406,6 +444,43 @@ func groupingCells() []cell {
 				}
 				return f(c, p[1], f(c, p[0], a[0], a[1]), a[2])
 			}})
+	}
+	// --- Kombinationen: two values are equal exactly when all their fields are equal, each field
+	// by the equality of its type (a Kommazahl field by numeric equality: -0,0 equals 0,0 and an
+	// undefined value equals nothing)
+	type kfield struct {
+		decl, lit string
+		t         T
+	}
+	fk := kfield{"der Kommazahl", "0,0", K}
+	fz := kfield{"der Zahl", "0", Z}
+	fw := kfield{"dem Wahrheitswert", "falsch", W}
+	for _, fs := range [][2]kfield{{fk, fk}, {fz, fk}, {fk, fz}, {fw, fk}, {fz, fz}} {
+		fs := fs
+		top := "Wir nennen die Kombination aus\n\t" + fs[0].decl + " x mit Standardwert " + fs[0].lit + ",\n\t" + fs[1].decl + " y mit Standardwert " + fs[1].lit +
+			",\nein Paar, und erstellen sie so:\n\t\"ein Paar mit x gleich <x> und y gleich <y>\"\n\n"
+		for _, neg := range []bool{false, true} {
+			neg := neg
+			key, op := "kombeq", "gleich"
+			if neg {
+				key, op = "kombne", "ungleich"
+			}
+			cells = append(cells, cell{name: fmt.Sprintf("%s_%s%s", key, tKey[fs[0].t], tKey[fs[1].t]), ptypes: []T{fs[0].t, fs[1].t, fs[0].t}, ret: W, group: "kombination", top: top,
+				pre: "Das Paar u ist ein Paar mit x gleich a und y gleich b.\n\tDas Paar v ist ein Paar mit x gleich c und y gleich b.\n\t", expr: "u " + op + " v ist",
+				ref: func(c *smt.Ctx, a []*smt.Expr) *smt.Expr {
+					feq := func(t T, x, y *smt.Expr) *smt.Expr {
+						if t == K {
+							return c.FEq(x, y)
+						}
+						return c.Eq(x, y)
+					}
+					eq := c.And(feq(fs[0].t, a[0], a[2]), feq(fs[1].t, a[1], a[1]))
+					if neg {
+						eq = c.Not(eq)
+					}
+					return c.BoolToBV(eq, 1)
+				}})
+		}
 	}
 	return cells
 }
